@@ -2,7 +2,8 @@
 
 Fault enumeration in bounds-checked workers: Warp runs in debug mode (every array access is bounds-checked and an
 out-of-range index aborts the process) with crash containment in the runner.  Space: models x option combinations x
-capacity lattice (zero, one, exact-fit, exact-fit-1 for each knob; all tiny pairs) x sleep modes, each driving the whole
+capacity lattice (zero, one, exact-fit, exact-fit-k for each knob; all tiny pairs) x sleep modes, plus a 7-sphere pile (complete island
+graph) under every sleep mode, each driving the whole
 public API sequence (step, forward, step1/step2, inverse, masked reset, get/set_state with exact-size buffers,
 contact_force for every slot of the contact buffer, get_data_into after overflow).  Invalid configurations must raise.
 Oracle: no abort, no signal, no assertion text; only documented exception types.
